@@ -421,3 +421,112 @@ def _ebits_idx(ex):
     if len(idx) != 1:
         raise Unsupported(f"cannot identify the eventually-bits component of a job in {ex.job_types}")
     return idx[0]
+
+
+# ---- spawn(): the initial eventually-bits and the boundary filter on the initial states ------------------------------------
+def spawn_obligations(name, mir_text, lib_rs):
+    """I-bits   [C03,C11] spawn() sets bit i exactly for the Eventually properties, i = position in the full property list
+       I-filter [C01,C02,C03] the initial states are filtered by `within_boundary` (the filter closure returns the verdict
+                of within_boundary on its own argument)"""
+    from mir import parse_body, split_functions
+    from symex import Executor, State
+    from spawnflow import SpawnExecutor
+    from blockloop import natural_loops_by_dominators, _assigned
+    order = expectation_order(lib_rs)
+    E = order["Eventually"]
+    text = None
+    closures = []
+    for f in split_functions(mir_text):
+        hdr = f.split("\n", 1)[0]
+        if re.match(rf"^fn (?:checker::)?{name}::<impl at src/checker/{name}\.rs[^>]*>::spawn\(", hdr):
+            text = f
+        elif re.match(rf"^fn (?:checker::)?{name}::<impl at src/checker/{name}\.rs[^>]*>::spawn::\{{closure#\d+\}}\(", hdr) and "<M as Model>::within_boundary" in f:
+            closures.append(f)
+    if text is None:
+        raise Unsupported(f"{name}: spawn() not found in the MIR")
+
+    class SpawnDisc(DiscExecutor, SpawnExecutor):
+        pass
+    SpawnDisc.exp_locals = frozenset(int(x) for x in re.findall(r"_(\d+) = discriminant\(\([^;]*: Expectation\)\);", text))
+    SpawnDisc.term_local = SpawnDisc.await_local = None
+    if not SpawnDisc.exp_locals:
+        raise Unsupported(f"{name} spawn: no test of a property's Expectation found (where are the initial eventually-bits set?)")
+    body = parse_body(text)
+    ex = SpawnDisc({Executor.short(body): body})
+    ex.job_types, ex.depth_idx = [], None
+    loops = natural_loops_by_dominators(body)
+    ex.loop_havoc = {h: _assigned(body, blks) for h, blks in loops.items()}
+    ex.stop_blocks = set()
+    st = State()
+    st.locals[body.params[0]] = st.alloc(("opaque", "options"))
+    outs = ex.run(body, st, 0)
+    res = []
+
+    def add(tag, ob, r):
+        res.append({"obligation": f"{name} spawn: {ob}", "tag": tag, "result": "unsat" if r == z3.unsat else ("sat" if r == z3.sat else str(r))})
+
+    n_ins = n_iter = 0
+    for i, o in enumerate(outs):
+        if o.kind == "panic":
+            continue
+        g = z3.And(*o.st.pc) if o.st.pc else z3.BoolVal(True)
+        if _check([], g)[0] != z3.sat:
+            continue
+        evs = o.st.events
+        # iterations: from an enum_next event to the next `loop` event / end of path
+        k = 0
+        while k < len(evs):
+            if evs[k][0] != "enum_next":
+                k += 1
+                continue
+            j = k + 1
+            while j < len(evs) and evs[j][0] not in ("enum_next", "loop"):
+                j += 1
+            it = evs[k:j]
+            exps = [e for e in it if e[0] == "expectation"]
+            ins = [e for e in it if e[0] == "ebits_insert"]
+            heads = [e[1] for e in evs[:k] if e[0] == "loop"]
+            finished = not (j == len(evs) and o.kind == "cut" and (not heads or o.info.get("bb") != heads[-1]))
+            tagp = f"path {i}"
+            for _ in ins:
+                n_ins += 1
+                if not exps:
+                    add("C03,C11", f"{tagp}: I-bits: an initial eventually-bit is set only after the property's kind was tested", _check([], g)[0])
+                else:
+                    add("C03,C11", f"{tagp}: I-bits: an initial eventually-bit is set only for an Eventually property", _check([], g, exps[0][1] != E)[0])
+                add("C03,C11", f"{tagp}: I-bits: the bit index is the property's position in the full property list ({evs[k][2][:80]})", z3.unsat if evs[k][1] else _check([], g)[0])
+            if exps and not ins and finished:
+                n_iter += 1
+                add("C03,C11", f"{tagp}: I-bits: every Eventually property gets its initial bit", _check([], g, exps[0][1] == E)[0])
+            k = j
+    if n_ins == 0 or n_iter == 0:
+        raise Unsupported(f"{name} spawn: the loop that sets the initial eventually-bits was not recognised (inserts {n_ins}, plain iterations {n_iter})")
+    # the boundary filter on the initial states
+    inline = any(e[0] == "within_boundary" for o in outs for e in o.st.events)
+    if not closures and not inline:
+        add("C01,C02,C03", "I-filter: the initial states are filtered by `within_boundary` (no boundary test found in spawn() or its closures)", z3.sat)
+    for f in closures:
+        cb = parse_body(f)
+        cx = DiscExecutor({Executor.short(cb): cb})
+        cx.job_types, cx.depth_idx = [], None
+        cx.loop_havoc, cx.stop_blocks = {}, set()
+        s2 = State()
+        argv = ("opaque", "candidate-initial-state")
+        for pi, pno in enumerate(cb.params):
+            s2.locals[pno] = s2.alloc(("ref", s2.alloc(("opaque", "env"))) if pi == 0 else ("ref", s2.alloc(("ref", s2.alloc(argv)))))
+        ret_ty = f.split("\n", 1)[0].rsplit(" -> ", 1)[-1].rstrip(" {").strip()
+        if ret_ty != "bool":
+            continue  # not a filter predicate (e.g. a map closure that happens to test the boundary)
+        for i, o in enumerate(cx.run(cb, s2, 0)):
+            if o.kind != "return":
+                continue
+            g = z3.And(*o.st.pc) if o.st.pc else z3.BoolVal(True)
+            wbs = [e for e in o.st.events if e[0] == "within_boundary"]
+            rv = o.info.get("ret")
+            if not wbs or rv is None or rv[0] != "bool":
+                add("C01,C02,C03", f"I-filter: filter closure path {i}: an initial state is kept only after the boundary test", _check([], g)[0])
+                continue
+            add("C01,C02,C03", f"I-filter: filter closure path {i}: an initial state is kept exactly when `within_boundary` holds for it", _check([], g, rv[1] != wbs[0][1])[0])
+            add("C01,C02,C03", f"I-filter: filter closure path {i}: the boundary test is applied to the candidate state itself", z3.unsat if wbs[0][2] == argv else _check([], g)[0])
+    info = {"function": body.name, "blocks": len(body.blocks), "paths": len(outs), "filter_closures": len(closures), "loops_havocked": [f"bb{h}" for h in sorted(loops)]}
+    return res, info
